@@ -1296,10 +1296,25 @@ impl<'s> Semantics<'s> {
 
         let condition = self.cc_condition()?;
 
+        // In 64-bit mode a 32-bit destination register is zero-extended into the full register even
+        // when the condition is false and nothing is moved.
+        let false_index = if matches!(self.mode(), Mode::Amd64) && detail.operands[0].size == 4 {
+            let block = control_flow_graph.new_block()?;
+            let dst = self
+                .mode()
+                .operand_value(&detail.operands[0], self.instruction())?;
+            self.operand_store(block, &detail.operands[0], dst)?;
+            let index = block.index();
+            control_flow_graph.unconditional_edge(index, tail_index)?;
+            index
+        } else {
+            tail_index
+        };
+
         control_flow_graph.conditional_edge(head_index, block_index, condition.clone())?;
         control_flow_graph.conditional_edge(
             head_index,
-            tail_index,
+            false_index,
             Expr::cmpeq(condition, expr_const(0, 1))?,
         )?;
         control_flow_graph.unconditional_edge(block_index, tail_index)?;
